@@ -1226,3 +1226,8 @@ impl<T> Parser<T> for Box<dyn Parser<T>> {
         self.as_ref().meta()
     }
 }
+
+#[cfg(kani)]
+mod verif_kani {
+    include!(concat!(env!("PACAK_BPAF_VERIF_DIR"), "/kani/structs.rs"));
+}
